@@ -80,6 +80,15 @@ BuildEval(ok) ==
   /\ own' = IF phase = "buildeval" /\ ok THEN tgt ELSE -1
   /\ phase' = "buildevaldone"
   /\ UNCHANGED <<np, acc, tgt, aid0, nfev, nevals, pend, seenNone, faultSeen, patience, stats, statFault>>
+\* build() need not re-apply the parameters the model already holds: it may evaluate straight away
+BuildSameEval(aid, ok) ==
+  /\ phase = "building"
+  /\ tgt = -1
+  /\ tgt' = aid
+  /\ aid0' = aid
+  /\ own' = IF ok THEN aid ELSE -1
+  /\ phase' = "buildevaldone"
+  /\ UNCHANGED <<np, acc, nfev, nevals, pend, seenNone, faultSeen, patience, stats, statFault>>
 \* NAMED DEVIATION (defect D2 of the pinned tree): after a failed parameter application the model
 \* is evaluated with its OLD parameters and the cache is refilled.  Kept as an action so that such
 \* executions are behaviours of the bare protocol; property C09 forbids it (see Trace_VPFit).
@@ -115,6 +124,40 @@ StaleCSetEval(ok) ==
   /\ own' = IF ok THEN tgt ELSE -1
   /\ phase' = "csetevaldone"
   /\ UNCHANGED <<np, acc, tgt, aid0, nfev, nevals, pend, seenNone, faultSeen, patience, stats, statFault>>
+\* A problem need not re-apply parameters the model already holds: the model is evaluated (again) at
+\* the parameters it has, the cache is refreshed for them.  (Whether the caller really asked for these
+\* parameters is checked by the trace specification: the marker of the update carries the request.)
+CSameEval(ok) ==
+  /\ phase \in {"built", "done"}
+  /\ own' = IF ok THEN tgt ELSE -1
+  /\ phase' = "csetevaldone"
+  /\ nfev' = 0
+  /\ UNCHANGED <<np, acc, tgt, aid0, nevals, pend, seenNone, faultSeen, patience, stats, statFault>>
+\* the same inside a fit: a trial step that does not move the parameters, or the re-application of the
+\* accepted parameters when they are the ones in effect
+TrialSameEval(ok, dec) ==
+  /\ phase = "trial"
+  /\ dec \in {"accept", "acceptstop", "reject"}
+  /\ nfev' = nfev + 1
+  /\ nevals' = nevals + 1
+  /\ IF ok
+     THEN /\ own' = tgt
+          /\ UNCHANGED <<seenNone, faultSeen>>
+          /\ acc' = IF dec = "reject" THEN acc ELSE tgt
+          /\ phase' = IF dec = "accept" THEN "jac" ELSE "trial"
+          /\ pend' = IF dec = "accept" THEN AllIdx ELSE {}
+     ELSE /\ own' = -1 /\ phase' = "mustend" /\ seenNone' = TRUE /\ faultSeen' = TRUE
+          /\ acc' = acc /\ pend' = {}
+  /\ UNCHANGED <<np, tgt, aid0, patience, stats, statFault>>
+ResetSameEval(ok) ==
+  /\ phase = "trial"
+  /\ tgt = acc
+  /\ phase' = "end"
+  /\ nevals' = nevals + 1
+  /\ own' = IF ok THEN tgt ELSE -1
+  /\ faultSeen' = (faultSeen \/ ~ok)
+  /\ UNCHANGED <<np, acc, tgt, aid0, nfev, pend, seenNone, patience, stats, statFault>>
+
 \* NAMED DEVIATION "update without evaluation": the parameters are applied, the model is not evaluated
 \* and the cache is kept.  Harmless exactly when the cache already belongs to these parameters
 \* (own = aid: a memoising implementation); otherwise the problem reports the new parameters next to
